@@ -34,7 +34,7 @@ def vector_pair(rng, name, dim=None):
             y = np.array([rng.uniform(-1.5, 1.5), rng.uniform(-3.1, 3.1)])
         return x, y, k
     dim = dim or int(rng.choice([1, 2, 3, 5, 8, 16, 33, 64]))
-    kind = str(rng.choice(["continuous", "integer", "binary", "zeros-in-one", "all-zero", "identical", "sparse"]))
+    kind = str(rng.choice(["continuous", "integer", "binary", "zeros-in-one", "all-zero", "identical", "sparse", "large-offset"]))
     if name in BINARY and kind in ("continuous",):
         kind = "binary"
     if kind == "continuous":
@@ -47,6 +47,12 @@ def vector_pair(rng, name, dim=None):
         x, y = np.zeros(dim), rng.integers(0, 4, dim).astype(float)
         if rng.random() < 0.5:
             x, y = y, x
+    elif kind == "large-offset":
+        # a common offset that is large relative to the spread (sensor readings, timestamps): exposes
+        # numerically unstable one-pass formulas; spreads are integers so that float64 keeps them exactly
+        off = float(rng.choice([300.0, 1.0e5, 1.0e8]))
+        x = off + rng.integers(-5, 6, dim).astype(float)
+        y = off + rng.integers(-5, 6, dim).astype(float)
     elif kind == "all-zero":
         x, y = np.zeros(dim), np.zeros(dim)
     elif kind == "identical":
